@@ -3,7 +3,7 @@
    its clades; Python set iteration order = list order, and every theorem holds for every order).
    wfF F: every clade of F is non-empty and strictly increasing.  laminar F: any two clades of F are nested or
    disjoint.  `Forall laminar trees` is the premise that each input is a tree. *)
-From PV Require Import Model.Consensus Proofs.ConsensusBase Proofs.ConsensusProofs Proofs.ConsensusGuard.
+From PV Require Import Model.Consensus Proofs.ConsensusBase Proofs.ConsensusProofs Proofs.ConsensusGuard Proofs.ConsensusTrees.
 Open Scope nat_scope.
 
 (* two clades whose support strictly exceeds a threshold >= 1/2 lie in a common input tree - unweighted ... *)
@@ -88,6 +88,48 @@ Theorem C16_fixed_clades_exact : forall F E, consensus F = Some E -> wfF F ->
   Forall2 seteq (map (out_clade_fixed (fuel_of F) E) F) F.
 Proof. exact fixed_clades_exact. Qed.
 Print Assumptions C16_fixed_clades_exact.
+
+(* the premises about the inputs hold for every recorded tree: the clade list of a rose forest with pairwise
+   distinct data points and no empty clone is a laminar family of canonical (sorted, non-empty) clades *)
+Theorem C16_recorded_trees_are_laminar : forall roots, wf_forest roots ->
+  laminar (ctree_of roots) /\ wfF (ctree_of roots).
+Proof. exact ctree_of_tree. Qed.
+Print Assumptions C16_recorded_trees_are_laminar.
+
+(* end to end, unweighted and weighted: for every list of recorded trees and every threshold >= 1/2 the consensus
+   is built without exception; if at most one retained clade has an empty own-mutation set its clades are exactly
+   the retained ones; with the candidate repair they always are; uncovered points get no node *)
+Theorem C16_end_to_end : forall thr, (half <= thr)%Qc ->
+  forall (F : list clade),
+  (exists forests, Forall wf_forest forests /\ F = retained_counts thr (map ctree_of forests))
+  \/ (exists fw : list (list rtree * Qc), Forall wf_forest (map fst fw) /\ (forall p, In p fw -> (0 <= snd p)%Qc)
+        /\ (sumq (map snd fw) <= 1)%Qc /\ F = retained_weighted thr (map (fun p => (ctree_of (fst p), snd p)) fw)) ->
+  exists E, consensus F = Some E
+    /\ (at_most_one_empty_own F E -> Forall2 seteq (out_clades F E) F)
+    /\ Forall2 seteq (map (out_clade_fixed (fuel_of F) E) F) F
+    /\ (forall x, (forall c, In c F -> ~ In x c) -> assign (rnodes E) x = None).
+Proof.
+  intros thr Ht F HF.
+  assert (H : wfF F /\ NoDup F /\ laminar F).
+  { destruct HF as [(forests & Hwf & ->)|(fw & Hwf & Hpos & Hsum & ->)].
+    - assert (Hw : Forall wfF (map ctree_of forests)) by (apply Forall_map; eapply Forall_impl; [|exact Hwf]; intros r Hr; apply (ctree_of_tree r Hr)).
+      assert (Hl : Forall laminar (map ctree_of forests)) by (apply Forall_map; eapply Forall_impl; [|exact Hwf]; intros r Hr; apply (ctree_of_tree r Hr)).
+      destruct (retained_counts_wf thr _ Hw) as [H1 H2]. split; [exact H1|]. split; [exact H2|]. now apply majority_laminar_counts.
+    - set (wt := map (fun p => (ctree_of (fst p), snd p)) fw).
+      assert (Hfst : map fst wt = map ctree_of (map fst fw)) by (unfold wt; rewrite !map_map; reflexivity).
+      assert (Hsnd : map snd wt = map snd fw) by (unfold wt; rewrite map_map; reflexivity).
+      assert (Hw : Forall wfF (map fst wt)) by (rewrite Hfst; apply Forall_map; eapply Forall_impl; [|exact Hwf]; intros r Hr; apply (ctree_of_tree r Hr)).
+      assert (Hl : Forall laminar (map fst wt)) by (rewrite Hfst; apply Forall_map; eapply Forall_impl; [|exact Hwf]; intros r Hr; apply (ctree_of_tree r Hr)).
+      destruct (retained_weighted_wf thr _ Hw) as [H1 H2]. split; [exact H1|]. split; [exact H2|].
+      apply majority_laminar_weighted; [|rewrite Hsnd; exact Hsum| exact Ht| exact Hl].
+      intros p Hp. unfold wt in Hp. apply in_map_iff in Hp as [q [<- Hq]]. cbn [snd]. now apply Hpos. }
+  destruct H as (Hw & Hnd & Hl). destruct (consensus_total F Hw Hnd Hl) as [E HE]. exists E.
+  split; [exact HE|]. split; [|split].
+  - intros Hg. apply (clades_exact F E HE Hw); [|exact Hnd]. now apply (guard_iff F E HE Hw Hl).
+  - exact (fixed_clades_exact F E HE Hw).
+  - intros x. exact (uncovered_unassigned F E HE x).
+Qed.
+Print Assumptions C16_end_to_end.
 
 (* ---- witnesses on the faithful model of the pinned code ---- *)
 (* three trees over four points, threshold 1/2: {0,1} and {2,3} are retained, both are fully covered by their
